@@ -26,6 +26,7 @@ from ..vm import PathSummary
 from ..vmvals import AttrOf, Const, Fresh, Item, Mutation, Seq, SliceV, State, Unknown, Val
 
 IN_PLACE = {"APPEND": "T1", "APPENDS": "B0", "SETITEM": "T2", "SETITEMS": "B0", "ADDITEMS": "B0", "BUILD": "T1"}
+LITERAL_CLASS = {"SETITEM": "Dict", "SETITEMS": "Dict"}
 ADDITIVE = {"append", "extend", "add", "update", "augassign", "insert", "setitem", "setdefault"}
 CONST_VALUES = {"NONE": None, "NEWTRUE": True, "NEWFALSE": False}
 
@@ -228,6 +229,20 @@ def check_in_place(rep: Report, sums: List[OpSummary]):
                         left = "NAMEOF"
                     else:
                         left = "FRESH" if isinstance(result, Fresh) else "OTHER"
+            if left == "NAMEOF" and name in LITERAL_CLASS:
+                # rebinding the container to a fresh variable is only alias-safe when the container is not a
+                # literal node: `_var0 = {'a': 1}` creates the object, but the memo (PUT/MEMOIZE stored the node
+                # itself) still holds the literal, which a later GET unparses into a *second*, stale object
+                lit = LITERAL_CLASS[name]
+                excluded = False
+                for c, val in st.cond_vals:
+                    if c.kind == "isinstance" and val is False and isinstance(c.subject, Item) and c.subject.label == label and c.arg.split(".")[-1] == lit:
+                        excluded = True
+                if not excluded:
+                    problems.append(
+                        f"[{tag}] binds the container to a new variable (`_varN = <container>`) on a path that is not restricted to non-literal containers: if it is an {lit} literal the memo keeps the literal node, and a later GET yields a second object without the items added through the variable (pickle.dumps([d, d], 0) with d = {{'a': 1, 'b': 2}} decompiles to [_var0, {{'a': 1}}])"
+                    )
+                    continue
             if left in ("FRESH", "OTHER"):
                 problems.append(
                     f"[{tag}] leaves {result.short() if result is not None else None} in place of the container operand: a memoised reference (PUT/MEMOIZE stored the old node) "
@@ -239,7 +254,8 @@ def check_in_place(rep: Report, sums: List[OpSummary]):
                 if m.how not in ADDITIVE:
                     problems.append(f"[{tag}] `{m.how}` on the container's .{m.field} at line {m.line} replaces contents that earlier opcodes put there")
         if problems:
-            rep.bad("C05.in-place", q, f"container-replaced:{name}", f"{name}: " + " | ".join(sorted(set(problems))[:2]), s.run.file, s.run.line, what=f"{name}: container identity")
+            kind = "literal-rebound" if all("binds the container to a new variable" in p for p in problems) else "container-replaced"
+            rep.bad("C05.in-place", q, f"{kind}:{name}", f"{name}: " + " | ".join(sorted(set(problems))[:2]), s.run.file, s.run.line, what=f"{name}: container identity")
         else:
             rep.ok("C05.in-place", q, f"{name}: leaves SAME/NAMEOF({label}) and only adds to it", s.where())
 
